@@ -299,9 +299,33 @@ func init() {
 			}
 			return true
 		})
+		// memory datastore, offset pagination (ReadAuthorizationModels, ListStores): the assignments to `from` / `to` in
+		// source order — the offset is clamped BEFORE the upper slice bound is derived from it
+		var pageBounds []string
+		for _, fn := range []string{"ReadAuthorizationModels", "ListStores"} {
+			fd := findFunc(fM, "MemoryBackend", fn)
+			if fd == nil {
+				return Result{}, fmt.Errorf("memory.%s not found", fn)
+			}
+			ast.Inspect(fd.Body, func(n ast.Node) bool {
+				switch x := n.(type) {
+				case *ast.AssignStmt:
+					if len(x.Lhs) >= 1 {
+						if id, ok := x.Lhs[0].(*ast.Ident); ok && (id.Name == "from" || id.Name == "to") {
+							pageBounds = append(pageBounds, fn+": "+src(fsM, x))
+						}
+					}
+				case *ast.SliceExpr:
+					pageBounds = append(pageBounds, fn+": slice "+src(fsM, x))
+				}
+				return true
+			})
+		}
 		var sb strings.Builder
 		sb.WriteString(genHeader)
 		sb.WriteString("namespace OpenFGAVerif.Gen.Panics\n\n")
+		sb.WriteString("/-- memory datastore, offset pagination: assignments to from / to and the slice expressions, in source order -/\n")
+		sb.WriteString("def memoryPageBounds : List String := " + leanStrList(pageBounds) + "\n")
 		sb.WriteString("/-- typesystem.New calls checkRelationReferenceShape on the type restrictions before graph.NewAuthorizationModelGraph -/\n")
 		sb.WriteString(fmt.Sprintf("def shapeGuardBeforeGraph : Bool := %v\n", shapeGuardBeforeGraph))
 		sb.WriteString("/-- the cases and tests of checkRelationReferenceShape -/\n")
